@@ -98,8 +98,14 @@ template<class T> struct InE { T a[4]; int which; int mode; };
 template<class T> static bool unitq(const T* q,typename Tr<T>::W* qw,typename Tr<T>::W& delta){ if(!fin(q,4)) return false; widen(q,qw,4); delta=n2w(qw,4)-1; return w_abs(delta)<=4*Tr<T>::u(); }
 template<class T> static bool unitv(const T* v,typename Tr<T>::W* vw){ if(!fin(v,3)) return false; widen(v,vw,3); return w_abs(n2w(vw,3)-1)<=4*Tr<T>::u(); }
 // four public ways of building a quaternion from components (mode&3)
+// the four-scalar constructor takes (w,x,y,z), or (x,y,z,w) when GLM_FORCE_QUAT_DATA_XYZW is defined
+#ifdef GLM_FORCE_QUAT_DATA_XYZW
+#	define C04_Q4(Q,w,x,y,z) Q(x,y,z,w)
+#else
+#	define C04_Q4(Q,w,x,y,z) Q(w,x,y,z)
+#endif
 template<class T> static glm::qua<T> mkq(const T* q,int mode){ typedef glm::qua<T> Q;
-	switch(mode&3){ case 0: return Q::wxyz(q[0],q[1],q[2],q[3]); case 1: return Q(q[0],glm::vec<3,T>(q[1],q[2],q[3])); case 2: return Q(q[0],q[1],q[2],q[3]);
+	switch(mode&3){ case 0: return Q::wxyz(q[0],q[1],q[2],q[3]); case 1: return Q(q[0],glm::vec<3,T>(q[1],q[2],q[3])); case 2: return C04_Q4(Q,q[0],q[1],q[2],q[3]);
 	default: { Q r=Q::wxyz(T(1),T(0),T(0),T(0)); r.w=q[0]; r.x=q[1]; r.y=q[2]; r.z=q[3]; return r; } } }
 template<class T> static void getq(const glm::qua<T>& g,T* o){ o[0]=g.w; o[1]=g.x; o[2]=g.y; o[3]=g.z; }
 template<class T> static void getm3(const glm::mat<3,3,T>& m,T o[3][3]){ for(int c=0;c<3;c++) for(int r=0;r<3;r++) o[c][r]=m[c][r]; }
@@ -240,6 +246,22 @@ template<class T> static void k_angleaxis_direct(const InQ<T>& in,vf::Ctx& c){ T
 	if(bv) c.fail("angleAxis(a,n):vector-part-differs-from-n*sin(a/2)",sv<T>(o,4),sw<T>(want,4));
 }
 
+// rotate(q, a, axis) (ext/quaternion_transform): q * angleAxis(a, axis/|axis|).  glm normalises the axis unless its length is within 1e-3
+// of 1 ("axis of rotation must be normalised"): inside that band the axis is used as given, so only axes that are unit to rounding or
+// clearly not unit (|len-1| > 2e-3) are judged.
+template<class T> static void k_quat_rotate_axis(const InQ<T>& in,vf::Ctx& c){ TRT
+	W q[4],d; if(!unitq(in.q,q,d)) SKIP("not-unit"); W n[3]; if(!unitv(in.v,n)) SKIP("axis-not-unit"); T a=in.p[0]; if(!isfinite_b(a)||!(std::fabs(a)<=T(1024))) SKIP("angle-out-of-domain");
+	static const double SC[12]={1.0,0.25,0.5,0.9,0.99,1.01,1.1,2.0,8.0,1e-3,1e3,0.75}; const T sc=(T)SC[((unsigned)in.aux)%12];
+	glm::vec<3,T> ax((T)(in.v[0]*sc),(T)(in.v[1]*sc),(T)(in.v[2]*sc)); W aw[3]={(W)ax[0],(W)ax[1],(W)ax[2]}; W len=w_sqrt(n2w(aw,3));
+	if(sc!=(T)1 && w_abs(len-1)<=W(0.002)) SKIP("axis-length-inside-glm's-unit-band");
+	c.cls(sc==(T)1? "unit-axis": len<1? "axis-shorter-than-unit":"axis-longer-than-unit");
+	W h=(W)a/2, r2[4]={w_cos(h),aw[0]/len*w_sin(h),aw[1]/len*w_sin(h),aw[2]/len*w_sin(h)}, want[4],S[4]; hamilton(q,r2,want,S);
+	T o[4]; getq(glm::rotate(mkq(in.q,in.mode),a,ax),o);
+	if(!fin(o,4)){ c.fail("rotate(q,angle,axis):non-finite-result",sv<T>(o,4),sw<T>(want,4)); return; }
+	bool bad=false; for(int i=0;i<4;i++){ W bound=W(SF)*(12*u)*S[i]+W(SF)*4*u+4*tiny, e=w_abs((W)o[i]-want[i]); rat(c,"rotate(q,angle,axis):err/bound",(double)(e/bound)); if(!(e<=bound)) bad=true; }
+	if(bad) c.fail(std::string("rotate(q,angle,axis):")+(sc==(T)1? "unit-axis":"non-unit-axis")+":differs-from-q*angleAxis(angle,normalize(axis))",sv<T>(o,4),sw<T>(want,4));
+}
+
 // ================================================================ quat(eulerAngles(q)) = +-q
 // pitch = atan2(2(yz+wx), ww-xx-yy+zz), roll = atan2(2(xy+wz), ww+xx-yy-zz): arguments have absolute error 3u and Euclidean
 // length cos(yaw): angle error 3u/cos(yaw) + 7u ; yaw = asin(-2(xz-wy)): (3u+|delta|)/cos(yaw) + 3u.  quat(euler) halves them
@@ -330,7 +352,7 @@ template<class T> static void k_inverse(const InQ<T>& in,vf::Ctx& c){ TRT
 template<class T> static void k_layout(const InQ<T>& in,vf::Ctx& c){
 	const T* t=in.q; if(!fin(t,4)) { c.cls("skipped:non-finite"); return; } typedef glm::qua<T> Q; typedef typename std::conditional<std::is_same<T,float>::value,double,float>::type O;
 	auto comps=[&](const char* nm,const Q& g){ T o[4]; getq(g,o); for(int i=0;i<4;i++) if(!same(o[i],t[i])){ c.fail(std::string(nm)+":members-(w,x,y,z)-differ-from-arguments",sv<T>(o,4),sv<T>(t,4)); return false; } return true; };
-	Q a=Q::wxyz(t[0],t[1],t[2],t[3]); comps("qua::wxyz(w,x,y,z)",a); comps("qua(w,vec3)",Q(t[0],glm::vec<3,T>(t[1],t[2],t[3]))); comps("qua(w,x,y,z)",Q(t[0],t[1],t[2],t[3])); comps("qua(qua)",Q(a));
+	Q a=Q::wxyz(t[0],t[1],t[2],t[3]); comps("qua::wxyz(w,x,y,z)",a); comps("qua(w,vec3)",Q(t[0],glm::vec<3,T>(t[1],t[2],t[3]))); comps("qua(four scalars)",C04_Q4(Q,t[0],t[1],t[2],t[3])); comps("qua(qua)",Q(a));
 	{ Q b=Q::wxyz(T(1),T(0),T(0),T(0)); b=a; comps("operator=",b); }
 	T mem[4]; static_assert(sizeof(Q)==4*sizeof(T),"qua size"); memcpy(mem,&a,sizeof mem);
 	T want[4]; if(WXYZ){ want[0]=t[0]; want[1]=t[1]; want[2]=t[2]; want[3]=t[3]; } else { want[0]=t[1]; want[1]=t[2]; want[2]=t[3]; want[3]=t[0]; }
@@ -457,6 +479,7 @@ typedef InQ<float> InQ_f; typedef InQ<double> InQ_d; typedef InE<float> InE_f; t
 	VF_OP(quat_product_##TN, InQ_##TN, FMQ(F)){ k_mul<T_>(in,c); } \
 	VF_OP(angle_axis_roundtrip_##TN, InQ_##TN, FMQ(F)){ k_angleaxis<T_>(in,c); } \
 	VF_OP(angleAxis_##TN, InQ_##TN, FMQ(F)){ k_angleaxis_direct<T_>(in,c); } \
+	VF_OP(quat_rotate_axis_##TN, InQ_##TN, FMQ(F)){ k_quat_rotate_axis<T_>(in,c); } \
 	VF_OP(euler_roundtrip_##TN, InQ_##TN, FMQ(F)){ k_euler_roundtrip<T_>(in,c); } \
 	VF_OP(quat_from_euler_##TN, InQ_##TN, FMQ(F)){ k_euler_ctor<T_>(in,c); } \
 	VF_OP(quat_from_two_vectors_##TN, InQ_##TN, FMQ(F)){ k_twovec<T_>(in,c); } \
@@ -468,8 +491,8 @@ typedef InQ<float> InQ_f; typedef InQ<double> InQ_d; typedef InE<float> InE_f; t
 	VF_OP(dual_quat_transform_##TN, InQ_##TN, FMQ(F)){ k_dualquat<T_>(in,c); }
 DEF_TYPE(float,f,"f")
 DEF_TYPE(double,d,"d")
-struct Ops { vf::Op *rot,*mat,*qc,*mul,*aa,*aad,*er,*ec,*tv,*inv,*lay,*eb,*ex,*rv,*dq; };
-#define OPS(TN) Ops{&rotate_vector_by_quat_##TN,&mat_cast_##TN,&quat_cast_roundtrip_##TN,&quat_product_##TN,&angle_axis_roundtrip_##TN,&angleAxis_##TN,&euler_roundtrip_##TN,&quat_from_euler_##TN,&quat_from_two_vectors_##TN,&inverse_conjugate_##TN,&quat_layout_##TN,&euler_build_##TN,&euler_extract_##TN,&rotate_vector_axis_angle_##TN,&dual_quat_transform_##TN}
+struct Ops { vf::Op *rot,*mat,*qc,*mul,*aa,*aad,*er,*ec,*tv,*inv,*lay,*eb,*ex,*rv,*dq,*qra; };
+#define OPS(TN) Ops{&rotate_vector_by_quat_##TN,&mat_cast_##TN,&quat_cast_roundtrip_##TN,&quat_product_##TN,&angle_axis_roundtrip_##TN,&angleAxis_##TN,&euler_roundtrip_##TN,&quat_from_euler_##TN,&quat_from_two_vectors_##TN,&inverse_conjugate_##TN,&quat_layout_##TN,&euler_build_##TN,&euler_extract_##TN,&rotate_vector_axis_angle_##TN,&dual_quat_transform_##TN,&quat_rotate_axis_##TN}
 
 // ---------------------------------------------------------------- generators
 template<class T> struct Gen {
@@ -514,7 +537,7 @@ template<class T> static void run_quat(const char* label,Ops o,u64 n){
 			InQ<T> a=mkq_in<T>(q,p,v,mode);
 			RUN(rot,a); RUN(mat,a); RUN(mul,a); RUN(aa,a); RUN(er,a); RUN(inv,a);
 			{ InQ<T> b=a; b.mode=(mode&3)|((int)r.below(2)<<2); RUN(qc,b); }
-			{ T n3[4],e[4]; g.unit3(n3); T ang[4]={(T)g.angle(),0,0,0}; if(r.below(6)==0) ang[0]=(T)r.uniform(-1000,1000); InQ<T> b=mkq_in<T>(z,ang,n3,mode); RUN(aad,b);
+			{ T n3[4],e[4]; g.unit3(n3); T ang[4]={(T)g.angle(),0,0,0}; if(r.below(6)==0) ang[0]=(T)r.uniform(-1000,1000); InQ<T> b=mkq_in<T>(z,ang,n3,mode); RUN(aad,b); { InQ<T> b2=mkq_in<T>(q,ang,n3,mode,(int)r.below(12)); RUN(qra,b2); }
 				for(int i=0;i<3;i++) e[i]=(T)g.angle(); e[3]=0; InQ<T> d=mkq_in<T>(z,z,e,mode); RUN(ec,d);
 				InQ<T> f=mkq_in<T>(n3,ang,v,mode); RUN(rv,f); }
 			{ // two unit vectors: independent, (nearly) parallel, (nearly) antiparallel with gaps 1e-1 .. 1e-18
